@@ -39,7 +39,7 @@ Failing(e) ==
            /\ (e.result_kind # "obj" \/ ~EqV(got, d.val)) THEN {fam \o "_state"} ELSE {})
   \cup (IF specified /\ e.res = "ok" /\ d.res = {"ok"} /\ e.same # d.same /\ ~(fro /\ cow) THEN {fam \o "_returns_wrong_object"} ELSE {})
   \cup (IF fro /\ ~unchanged THEN {"c07_frozen_instance_changed"} ELSE {})
-  \cup (IF fro /\ ~cow /\ a.op \notin {"update_top", "transform_top"} /\ ("iff" \notin DOMAIN a \/ a.iff) /\ e.res # "FrozenInstanceError" THEN {"c07_inplace_on_frozen_not_rejected"} ELSE {})
+  \cup (IF fro /\ ~cow /\ specified /\ "ok" \notin d.res /\ e.res = "ok" THEN {"c07_inplace_on_frozen_not_rejected"} ELSE {})
   \cup (IF fro /\ cow /\ specified /\ d.res = {"ok"} /\ ~d.same /\ e.res = "ok" /\ e.same THEN {"c07_copy_returns_receiver"} ELSE {})
   \cup (IF ~e.peer_same THEN {"c08_peer_changed"} ELSE {})
   \cup (IF ~e.dflt_same THEN {"c08_class_default_changed"} ELSE {})
